@@ -396,14 +396,71 @@ def publicType : GoType → GoType
     Go type `t` (`b.abiType(abi.PublicType(elem))`): what `typedmemmove(t.Elem, …)`, `SliceClear` … copy or clear -/
 def elemDescSize (tg : Target) (fw : Nat) (t : GoType) : Nat := abiSizeG tg fw (publicType (toRaw t))
 
+/-! ### `Builder.PtrBytes` -/
+
+def abiBasicPtrBytes (tg : Target) : Basic → Nat
+  | .string | .unsafePointer => tg.ptrSize
+  | _ => 0
+
+/-- index of the last non-zero entry -/
+def lastNonZero : List Nat → Option Nat
+  | [] => none
+  | x :: r =>
+    match lastNonZero r with
+    | some i => some (i + 1)
+    | none => if x != 0 then some 0 else none
+
+/-- the struct case of `PtrBytes`: `field` = last field with pointers, result `Offsetsof(fields)[field] + bytes`.
+    In the code as it is, `bytes` is assigned in the loop condition (`if bytes = b.PtrBytes(f.Type()); bytes != 0`) and
+    therefore holds the value of the LAST field, whatever it is; `fixed` keeps the value of `field`. -/
+def structPtrBytes (fixed : Bool) (pbs offs : List Nat) : Nat :=
+  match lastNonZero pbs with
+  | none => 0
+  | some i => offs.getD i 0 + (if fixed then pbs.getD i 0 else pbs.getLastD 0)
+
+mutual
+/-- `Builder.PtrBytes` on a raw type -/
+def ptrBytesG (tg : Target) (fixed : Bool) : GoType → Nat
+  | .basic b => abiBasicPtrBytes tg b
+  | .pointer _ => tg.ptrSize
+  | .slice _ => tg.ptrSize
+  | .func => tg.ptrSize
+  | .map _ _ => tg.ptrSize
+  | .chan _ => tg.ptrSize
+  | .iface _ => 2 * tg.ptrSize
+  | .closure => structPtrBytes fixed [tg.ptrSize, tg.ptrSize] [0, tg.ptrSize]
+  | .array n e =>
+      if n ≠ 0 ∧ ptrBytesG tg fixed e ≠ 0 then n * abiSizeG tg 1 e - abiSizeG tg 1 e + ptrBytesG tg fixed e else 0
+  | .struct fs => structPtrBytes fixed (ptrBytesFs tg fixed fs) (goOffsets tg (.struct fs))
+  | .named t => ptrBytesG tg fixed t
+  | .alias t => ptrBytesG tg fixed t
+def ptrBytesFs (tg : Target) (fixed : Bool) : Fields → List Nat
+  | .nil => []
+  | .cons t fs => ptrBytesG tg fixed t :: ptrBytesFs tg fixed fs
+end
+
+/-- does a value of the (raw) type contain a pointer word -/
+def hasPtrs : GoType → Bool
+  | .basic b => b == .string || b == .unsafePointer
+  | .pointer _ | .slice _ | .func | .map _ _ | .chan _ | .iface _ | .closure => true
+  | .array n e => n != 0 && hasPtrs e
+  | .struct fs => hasPtrsFs fs
+  | .named t => hasPtrs t
+  | .alias t => hasPtrs t
+where hasPtrsFs : Fields → Bool
+  | .nil => false
+  | .cons t fs => hasPtrs t || hasPtrsFs fs
+
 /-! ## map buckets (`ssa/abi/map.go` `MapBucketType`, `abiExtendedFields`) -/
 
 /-- the bucket struct of `map[k]v` (raw `k`, `v`): `{topbits [8]uint8; keys [8]K; elems [8]V; overflow}` with keys/elems
-    larger than 128 bytes stored indirectly.  (`overflow` is `uintptr` or `unsafe.Pointer`: same layout.) -/
+    larger than 128 bytes stored indirectly -/
 def mapBucket (tg : Target) (k v : GoType) : GoType :=
   let k' := if goSizeof tg k > 128 then .pointer k else k
   let v' := if goSizeof tg v > 128 then .pointer v else v
-  .struct (.cons (.array 8 (.basic .uint8)) (.cons (.array 8 k') (.cons (.array 8 v') (.cons (.basic .unsafePointer) .nil))))
+  -- `overflow` is `uintptr` when neither keys nor elements hold pointers (`HasPtrData`), else `unsafe.Pointer`
+  let o : GoType := if hasPtrs k' || hasPtrs v' then .basic .unsafePointer else .basic .uintptr
+  .struct (.cons (.array 8 (.basic .uint8)) (.cons (.array 8 k') (.cons (.array 8 v') (.cons o .nil))))
 
 /-- a bucket slot holds the key/element itself, or a pointer when it is larger than `MAXKEYSIZE`/`MAXELEMSIZE` = 128 -/
 def slotSize (tg : Target) (z : Nat) : Nat := if z > 128 then tg.ptrSize else z
